@@ -46,7 +46,11 @@ func (c *Ctx) isCacheMutation(in ssa.Instruction) (bool, string) {
 
 // positiveReplyCtors: package-level functions of server returning *ServerComMessage whose Ctrl.Code
 // constant is 2xx (directly or through one delegated constructor).
-func (c *Ctx) positiveReplyCtors() map[*ssa.Function]bool {
+func (c *Ctx) positiveReplyCtors() map[*ssa.Function]bool { return c.replyCtorsByCode(200, 300) }
+
+// replyCtorsByCode: the reply constructors (functions returning *ServerComMessage) whose constant
+// ctrl code lies in [lo, hi).
+func (c *Ctx) replyCtorsByCode(lo, hi int64) map[*ssa.Function]bool {
 	codeF := c.field("server", "MsgServerCtrl", "Code")
 	out := map[*ssa.Function]bool{}
 	direct := map[*ssa.Function]int64{}
@@ -78,7 +82,7 @@ func (c *Ctx) positiveReplyCtors() map[*ssa.Function]bool {
 				}
 			})
 		}
-		if ok && code >= 200 && code < 300 {
+		if ok && code >= lo && code < hi {
 			out[fn] = true
 		}
 	}
@@ -181,6 +185,7 @@ func checkC08(c *Ctx) {
 	c.checkCachedMapsNotMutatedInPlace()
 	c.checkP2PRecordsAgree()
 	c.checkUpdateKeysIndependent()
+	c.checkLocalCopyWrittenBack("C08.3c-local-copy-written-back", nil)
 }
 
 // checkCacheAfterStore: in a handler that persists a change, the mirrored topic fields are
